@@ -1086,6 +1086,15 @@ def wiring():
             for a_ in ast.walk(fn):
                 if isinstance(a_, ast.Assign) and len(a_.targets) == 1 and isinstance(a_.targets[0], ast.Name) and a_.targets[0].id not in argn_:
                     defs_.setdefault(a_.targets[0].id, []).append((a_.lineno, a_.value))
+                elif isinstance(a_, ast.Assign) and len(a_.targets) == 1 and isinstance(a_.targets[0], (ast.Tuple, ast.List)):
+                    # `a, b = …`: element-wise when the right side is a display of the same length, otherwise each name is a value
+                    # computed on the spot (kept by name, like the result of a call)
+                    els_ = a_.targets[0].elts
+                    same_ = isinstance(a_.value, (ast.Tuple, ast.List)) and len(a_.value.elts) == len(els_)
+                    for j_, t_ in enumerate(els_):
+                        if isinstance(t_, ast.Name) and t_.id not in argn_:
+                            v_ = a_.value.elts[j_] if same_ else ast.Call(func=ast.Name(id="unpacked", ctx=ast.Load()), args=[], keywords=[])
+                            defs_.setdefault(t_.id, []).append((a_.lineno, v_))
 
             full_ = [False]
 
@@ -1255,6 +1264,10 @@ def _inline_self_aliases(fn):
                 chain = chain.value
             if isinstance(v_, ast.Attribute) and isinstance(chain, ast.Name) and chain.id == "self" and ast.unparse(v_) != "self.params":
                 val[a_.targets[0].id] = v_
+            elif isinstance(v_, ast.IfExp) and all(isinstance(b_, ast.Attribute) and re.fullmatch(r"self(\.\w+)+", ast.unparse(b_))
+                                                   for b_ in (v_.body, v_.orelse)):
+                # a callable chosen by a condition (`f = self.a if c else self.b.m; return f(z)`): the call is distributed over the choice
+                val[a_.targets[0].id] = v_
     params = {a.arg for a in fn.args.args}
     alias = {n_: v_ for n_, v_ in val.items() if cnt.get(n_) == 1 and n_ not in params}
     if not alias:
@@ -1266,10 +1279,27 @@ def _inline_self_aliases(fn):
                 return _copy.deepcopy(alias[n_.id])
             return n_
 
+        def visit_Call(s_, c_):
+            c_ = s_.generic_visit(c_)
+            if isinstance(c_.func, ast.IfExp):
+                f_ = c_.func
+                return ast.IfExp(test=f_.test, body=ast.Call(func=f_.body, args=c_.args, keywords=c_.keywords),
+                                 orelse=ast.Call(func=f_.orelse, args=_copy.deepcopy(c_.args), keywords=_copy.deepcopy(c_.keywords)))
+            return c_
+
         def visit_Assign(s_, a_):
             if len(a_.targets) == 1 and isinstance(a_.targets[0], ast.Name) and a_.targets[0].id in alias:
                 return None            # the alias definition itself disappears
             return s_.generic_visit(a_)
+    # a conditional alias is only written out where it is called
+    for n_, v_ in list(alias.items()):
+        if isinstance(v_, ast.IfExp):
+            uses = [x for x in ast.walk(fn) if isinstance(x, ast.Name) and x.id == n_ and isinstance(x.ctx, ast.Load)]
+            called = [x for x in ast.walk(fn) if isinstance(x, ast.Call) and isinstance(x.func, ast.Name) and x.func.id == n_]
+            if len(uses) != len(called):
+                del alias[n_]
+    if not alias:
+        return fn
     return ast.fix_missing_locations(T().visit(_copy.deepcopy(fn)))
 
 
